@@ -1,0 +1,16 @@
+// SPDX-FileCopyrightText: 2022 Kalle Fagerberg
+//
+// SPDX-License-Identifier: MIT
+
+//go:build !go1.21
+
+package maps
+
+// Clear will delete all key-value pairs from a map, rendering it empty.
+func Clear[M ~map[K]V, K comparable, V any](m M) {
+	// Relies on the compiler optimization introduced in Go v1.11
+	// https://go.dev/doc/go1.11#performance-compiler
+	for k := range m {
+		delete(m, k)
+	}
+}
